@@ -447,6 +447,12 @@ func (w *streamingResponseWriter) WriteHeader(status int) {
 	if w.wroteHeader {
 		return
 	}
+	if status >= 100 && status < 200 && status != http.StatusSwitchingProtocols {
+		// Informational responses (e.g. 100 Continue or 103 Early Hints, which
+		// httputil.ReverseProxy relays) are not the response: the final status
+		// and headers are still to come, so we must not latch onto this one.
+		return
+	}
 	w.wroteHeader = true
 
 	// Initialize the response trailers.
